@@ -5,4 +5,4 @@ From HidV Require Import GenTables OpTables LowerBoolModel LowerStmtModel LowerS
 
 Extraction "../ocaml/hidlowerstmt_core.ml"
   lower_body lower_stmts need_stmts is_you_senv print_aline lower_program state_section print_dline
-  icall run_ok_b Z.add Z.mul Z.opp.
+  icall run_ok_b state_section_g Z.add Z.mul Z.opp.
